@@ -4,7 +4,7 @@
    call and no write; the state invariant is preserved (so the statements hold along any history). *)
 From Coq Require Import ZArith List Bool Lia ZifyBool.
 From PCB Require Import lib.Result lib.PyInt lib.GfxPrims gen.Gen_viewport gen.Gen_raster
-  model.Matrix model.Viewport model.Raster proofs.Matrix_proofs proofs.Viewport_proofs proofs.Raster_bridge.
+  model.Matrix model.Viewport model.Raster proofs.Matrix_proofs proofs.Viewport_proofs proofs.Raster_safe.
 Import ListNotations.
 Open Scope Z_scope.
 
@@ -18,36 +18,6 @@ Qed.
 
 Lemma pixel_reqs_ok : forall vp l, wf_vp vp -> Forall pixel_req l -> Forall (req_ok vp) l.
 Proof. intros vp l Hwf H. eapply Forall_impl; [|exact H]. intros rq Hr. apply pixel_req_ok; assumption. Qed.
-
-Lemma line_reqs_ok : forall vp x0 y0 x1 y1 a p, wf_vp vp -> Forall (req_ok vp) (line_reqs vp x0 y0 x1 y1 a p).
-Proof.
-  intros vp x0 y0 x1 y1 a p Hwf. unfold line_reqs.
-  destruct (vp_cutoff_coord vp x0 y0). destruct (vp_cutoff_coord vp x1 y1).
-  apply pixel_reqs_ok; [exact Hwf | apply pix_reqs_pixel].
-Qed.
-
-Lemma box_reqs_ok : forall vp x0 y0 x1 y1 a p, wf_vp vp -> Forall (req_ok vp) (box_reqs vp x0 y0 x1 y1 a p).
-Proof.
-  intros vp x0 y0 x1 y1 a p Hwf. unfold box_reqs.
-  destruct (vp_cutoff_coord vp x0 y0). destruct (vp_cutoff_coord vp x1 y1).
-  apply pixel_reqs_ok; [exact Hwf | apply pix_reqs_pixel].
-Qed.
-
-(* the filled box: this is where cutoff_coord's clamp to [-1, max] is needed *)
-Lemma boxfill_reqs_ok : forall vp x0 y0 x1 y1 a, wf_vp vp -> Forall (req_ok vp) (boxfill_reqs vp x0 y0 x1 y1 a).
-Proof.
-  intros vp x0 y0 x1 y1 a Hwf. unfold boxfill_reqs.
-  destruct (vp_cutoff_coord vp x0 y0) as [cx0 cy0] eqn:E0.
-  destruct (vp_cutoff_coord vp x1 y1) as [cx1 cy1] eqn:E1.
-  pose proof (cutoff_abs_range vp x0 y0 cx0 cy0 Hwf E0) as H0.
-  pose proof (cutoff_abs_range vp x1 y1 cx1 cy1 Hwf E1) as H1.
-  constructor; [|constructor].
-  apply box_req_ok; [exact Hwf | |].
-  - destruct vp as [ab vx0 vy0 vx1 vy1 mw mh]. unfold_vp.
-    cbn [vp_abs vp_x0 vp_y0 vp_x1 vp_y1 vp_maxw vp_maxh] in *. destruct ab; lia.
-  - destruct vp as [ab vx0 vy0 vx1 vy1 mw mh]. unfold_vp.
-    cbn [vp_abs vp_x0 vp_y0 vp_x1 vp_y1 vp_maxw vp_maxh] in *. destruct ab; lia.
-Qed.
 
 (* ---------- PUT *)
 
@@ -162,24 +132,25 @@ Proof.
   destruct s as [x y a | x0 y0 x1 y1 a p | x0 y0 x1 y1 a p | x0 y0 x1 y1 a | x0 y0 x1 y1 ab fill border
                  | x y sprite op | g rq e]; cbn [stmt_reqs draw_vp] in *.
   - injection H as E1 E2 E3. subst. apply Hsame.
-    rewrite gen_pset_is_model. apply pixel_reqs_ok; [exact Hwf|].
-    apply (pix_reqs_pixel a [(x, y)]).
-  - rewrite gen_line_is_model in H. cbn [bind] in H. injection H as E1 E2 E3. subst.
-    apply Hsame. apply line_reqs_ok; exact Hwf.
-  - rewrite gen_box_is_model in H. cbn [bind] in H. injection H as E1 E2 E3. subst.
-    apply Hsame. apply box_reqs_ok; exact Hwf.
-  - injection H as E1 E2 E3. subst. apply Hsame.
-    rewrite gen_boxfill_is_model. apply boxfill_reqs_ok; exact Hwf.
+    apply pixel_reqs_ok; [exact Hwf | apply gen_pset_safe].
+  - destruct (gen_line_safe (g_vp st) x0 y0 x1 y1 a p) as [l [El Fl]]. rewrite El in H.
+    cbn [bind] in H. injection H as E1 E2 E3. subst.
+    apply Hsame. apply pixel_reqs_ok; assumption.
+  - destruct (gen_box_safe (g_vp st) x0 y0 x1 y1 a p) as [l [El Fl]]. rewrite El in H.
+    cbn [bind] in H. injection H as E1 E2 E3. subst.
+    apply Hsame. apply pixel_reqs_ok; assumption.
+  - injection H as E1 E2 E3. subst. apply Hsame. apply gen_boxfill_safe; exact Hwf.
   - assert (Hu : wf_vp (vp_unset (g_vp st))) by (apply vp_unset_wf; lia).
     cbn [stmt_ok] in Hok.
     assert (Hset : wf_vp (vp_set (g_vp st) x0 y0 x1 y1 ab)) by (apply vp_set_wf; lia).
     assert (Hfill : Forall (req_ok (vp_unset (g_vp st)))
                       match fill with Some f => gen_boxfill (vp_unset (g_vp st)) x0 y0 x1 y1 f | None => [] end).
-    { destruct fill as [f|]; [rewrite gen_boxfill_is_model; apply boxfill_reqs_ok; exact Hu | constructor]. }
+    { destruct fill as [f|]; [apply gen_boxfill_safe; exact Hu | constructor]. }
     destruct border as [b|].
-    + rewrite gen_box_is_model in H. cbn [bind] in H. injection H as E1 E2 E3. subst.
+    + destruct (gen_box_safe (vp_unset (g_vp st)) (x0 - 1) (y0 - 1) (x1 + 1) (y1 + 1) b 65535) as [l [El Fl]].
+      rewrite El in H. cbn [bind] in H. injection H as E1 E2 E3. subst.
       split; [reflexivity|]. split; [exact Hu|].
-      split; [apply Forall_app; split; [exact Hfill | apply box_reqs_ok; exact Hu]|].
+      split; [apply Forall_app; split; [exact Hfill | apply pixel_reqs_ok; assumption]|].
       split; [exact Hset|]. split; [reflexivity|]. split; [reflexivity|]. split; reflexivity.
     + cbn [bind] in H. injection H as E1 E2 E3. subst.
       split; [reflexivity|]. split; [exact Hu|].
@@ -283,15 +254,19 @@ Proof.
   - (* Host: impossible *)
     exfalso. destruct s as [x y a | x0 y0 x1 y1 a p | x0 y0 x1 y1 a p | x0 y0 x1 y1 a | x0 y0 x1 y1 ab fill border
                  | x y sprite op | g rq e]; cbn [stmt_reqs] in Er; try discriminate.
-    + rewrite gen_line_is_model in Er. discriminate.
-    + rewrite gen_box_is_model in Er. discriminate.
-    + destruct border; [rewrite gen_box_is_model in Er|]; discriminate.
+    + destruct (gen_line_safe (g_vp st) x0 y0 x1 y1 a p) as [l [El _]]. rewrite El in Er. discriminate.
+    + destruct (gen_box_safe (g_vp st) x0 y0 x1 y1 a p) as [l [El _]]. rewrite El in Er. discriminate.
+    + destruct border as [b|]; [|discriminate].
+      destruct (gen_box_safe (vp_unset (g_vp st)) (x0 - 1) (y0 - 1) (x1 + 1) (y1 + 1) b 65535) as [l [El _]].
+      rewrite El in Er. discriminate.
     + unfold put_reqs in Er. destruct (negb _); [discriminate|]. destruct (negb _); discriminate.
   - exfalso. destruct s as [x y a | x0 y0 x1 y1 a p | x0 y0 x1 y1 a p | x0 y0 x1 y1 a | x0 y0 x1 y1 ab fill border
                  | x y sprite op | g rq e]; cbn [stmt_reqs] in Er; try discriminate.
-    + rewrite gen_line_is_model in Er. discriminate.
-    + rewrite gen_box_is_model in Er. discriminate.
-    + destruct border; [rewrite gen_box_is_model in Er|]; discriminate.
+    + destruct (gen_line_safe (g_vp st) x0 y0 x1 y1 a p) as [l [El _]]. rewrite El in Er. discriminate.
+    + destruct (gen_box_safe (g_vp st) x0 y0 x1 y1 a p) as [l [El _]]. rewrite El in Er. discriminate.
+    + destruct border as [b|]; [|discriminate].
+      destruct (gen_box_safe (vp_unset (g_vp st)) (x0 - 1) (y0 - 1) (x1 + 1) (y1 + 1) b 65535) as [l [El _]].
+      rewrite El in Er. discriminate.
     + unfold put_reqs in Er. destruct (negb _); [discriminate|]. destruct (negb _); discriminate.
 Qed.
 
